@@ -32,6 +32,9 @@ pub fn reset() {
     })
 }
 
+/// Over-aligned on purpose: the entry layout of the vector has to honour the alignment of the
+/// item type (an entry stride that is not a multiple of 16 shows up as a misaligned access).
+#[repr(align(16))]
 pub struct Payload {
     pub canary: u64,
     pub uid: u32,
